@@ -57,6 +57,14 @@ for _n in INT_UNARY:
 for _n in INT_BINARY:
     op(_n, (lambda n: lambda sp, x, y: getattr(sp, n)(x, abs(y) % 3 if n.endswith("shift") else y))(_n),
        (lambda n: lambda np_, d, e: getattr(np_, NP_NAME.get(n, n))(d, abs(e) % 3 if n.endswith("shift") else e))(_n), dtypes=("int",) if _n.endswith("shift") else ("int", "bool"))
+# the element-wise tests that compute the fill value of their result themselves: every spelling (namespace function, method,
+# NumPy ufunc through __array_ufunc__, Array-API namespace)
+for _n in ["isinf", "isnan"]:
+    op(f"{_n}[method]", (lambda n: lambda sp, x, y: getattr(x, n)())(_n), (lambda n: lambda np_, d, e: getattr(np_, n)(d))(_n))
+    op(f"{_n}[np.ufunc]", (lambda n: lambda sp, x, y: getattr(np, n)(x))(_n), (lambda n: lambda np_, d, e: getattr(np_, n)(d))(_n))
+    op(f"{_n}[xp]", (lambda n: lambda sp, x, y: getattr(x.__array_namespace__(), n)(x))(_n), (lambda n: lambda np_, d, e: getattr(np_, n)(d))(_n))
+    op(f"{_n}[dok]", (lambda n: lambda sp, x, y: getattr(sp, n)(sp.DOK.from_coo(x.asformat("coo"))))(_n), (lambda n: lambda np_, d, e: getattr(np_, n)(d))(_n),
+       formats=("coo",), note="the DOK route")
 op("elemwise", lambda sp, x, y: sp.elemwise(np.add, x, y), lambda np_, d, e: d + e)
 op("clip", lambda sp, x, y: sp.clip(x, -1, 1), lambda np_, d, e: np_.clip(d, -1, 1))
 
